@@ -18,9 +18,9 @@ needs_build() {
 }
 if [ "${1:-}" = "--build" ]; then build; exit 0; fi
 needs_build && build "${1:-}"
-if [ "${1:-}" = "--replay" ]; then exec "$BIN" -replay "$2"; fi
+if [ "${1:-}" = "--replay" ]; then exec "$BIN" -verif "$(pwd)" -replay "$2"; fi
 PROP="$1"; TIER="${2:-quick}"
 if [ "$TIER" = "thorough" ]; then
   exec ./thorough.sh "$PROP"
 fi
-exec "$BIN" -p "$PROP" -tier quick
+exec "$BIN" -verif "$(pwd)" -p "$PROP" -tier quick
